@@ -150,6 +150,31 @@ RuleType(t, p) ==
        ELSE IF v = "invalid" THEN Rej({350, PosCode(p)} \cup (IF p \in {"xparam", "xret"} THEN {358} ELSE {}))
        ELSE RuleValid(t, p)
 
+\* STATE (lesson 7): two independent declarations in one file, the FIRST one of `FirstCells` (one faulty and one valid
+\* cell per position), the second any cell.  Declarations are judged one by one: the file is rejected iff one of them is;
+\* a valid declaration carries no diagnostic of the family whatever stands before / after it; a faulty one next to a
+\* valid one carries one of its own codes.
+FirstCells == <<
+    [ty |-> <<"void">>, pos |-> "var"],             [ty |-> <<"arr", "i32">>, pos |-> "var"],
+    [ty |-> <<"endless", "i32">>, pos |-> "const"], [ty |-> <<"arr", "i32">>, pos |-> "const"],
+    [ty |-> <<"void">>, pos |-> "param"],           [ty |-> <<"ptr", "i32">>, pos |-> "param"],
+    [ty |-> <<"S">>, pos |-> "ret"],                [ty |-> <<"i32">>, pos |-> "ret"],
+    [ty |-> <<"like", "i32">>, pos |-> "smember"],  [ty |-> <<"arr", "i32">>, pos |-> "smember"],
+    [ty |-> <<"arr", "i32">>, pos |-> "wmember"],   [ty |-> <<"i32">>, pos |-> "wmember"],
+    [ty |-> <<"S">>, pos |-> "xparam"],             [ty |-> <<"ptr", "i32">>, pos |-> "xparam"],
+    [ty |-> <<"bool">>, pos |-> "xret"],            [ty |-> <<"i32">>, pos |-> "xret"],
+    [ty |-> <<"like", "i32">>, pos |-> "sizeof"],   [ty |-> <<"S">>, pos |-> "sizeof"],
+    [ty |-> <<"arr", "like", "i32">>, pos |-> "var"] >>
+RulePair(f, t, p) ==
+    LET r1 == RuleType(f.ty, f.pos)
+        r2 == RuleType(t, p)
+    IN [v |-> IF r1.v = "R" \/ r2.v = "R" THEN "R" ELSE IF r1.v = "A" /\ r2.v = "A" THEN "A" ELSE "U",
+        \* next to an unconstrained cell the rejection may come from either declaration
+        codes |-> r1.codes \cup r2.codes \cup (IF r1.v = "U" \/ r2.v = "U" THEN 350..359 ELSE {}),
+        clean1 |-> r1.v = "A", clean2 |-> r2.v = "A",
+        must1 |-> IF r1.v = "R" /\ r2.v = "A" THEN r1.codes ELSE {},
+        must2 |-> IF r2.v = "R" /\ r1.v = "A" THEN r2.codes ELSE {}]
+
 \* words: members (each a fixed size integer, bool or the word32 W) and a declared size in bits.
 \* E380: "the declared size of a word does not match the total size of its members"; the property
 \* demands rejection of words LARGER than declared; smaller ones and padding are not documented.
@@ -166,13 +191,29 @@ RuleWord(ms, bits) == IF SumBits(ms, 1) > bits THEN Rej({380})
                       ELSE Unc
 
 \* named array lengths (E433): "either an integer literal or a named constant of type usize"
-RuleLen(where, what) == CASE what = "const" -> Acc
+\* "constexpr" (`const n: usize = 1 + 2;`) and "constchain" (`const k: usize = 3; const n: usize = k;`) are named
+\* constants of type usize like "const"
+RuleLen(where, what) == CASE what \in {"const", "constexpr", "constchain"} -> Acc
                           [] what \in {"var", "param"} -> Rej({433})
                           [] what = "consti32" -> Rej({433, 500, 501, 502, 503, 504, 505, 506, 507, 510, 511, 512, 513})
-\* duplicates (E421, E423-E426)
-RuleDup(what, dup) == IF ~dup THEN Acc
-                      ELSE CASE what = "fn" -> Rej({421}) [] what = "const" -> Rej({423}) [] what = "param" -> Rej({424})
-                             [] what \in {"struct", "structword"} -> Rej({425}) [] what = "member" -> Rej({426})
+\* duplicates (E421, E423-E426).  The codes speak of two declarations of ONE kind ("two functions", "two constants",
+\* "two structures", "two members", "another parameter or constant in scope"):
+\*   what = "ns"      the two names belong to different namespaces (constant / structure or word / function): no
+\*                    duplicate, accepted (the permutation family relies on the same reading); a member or parameter
+\*                    named like something of another kind is not mentioned by the documentation: unconstrained
+\*   variants import:* (two files, C12: "never its private items"): a name that is private in the imported file, or
+\*                    public in a file that is NOT imported, clashes with nothing; a clash between an imported public
+\*                    name and a local one is not documented: unconstrained
+NsDocumented == {"const+struct", "struct+const", "const+fn", "fn+const", "struct+fn", "fn+struct", "word+const", "const+word",
+                 "word+fn"}
+RuleDupV(what, dup, v) ==
+    IF ~dup THEN Acc
+    ELSE IF what = "ns" THEN (IF v \in NsDocumented THEN Acc ELSE Unc)
+    ELSE IF v \in {"import:private+local", "import:unimported+local"} THEN Acc
+    ELSE IF v = "import:pub+local" THEN Unc
+    ELSE CASE what = "fn" -> Rej({421}) [] what = "const" -> Rej({423}) [] what = "param" -> Rej({424})
+           [] what \in {"struct", "structword"} -> Rej({425}) [] what = "member" -> Rej({426})
+RuleDup(what, dup) == RuleDupV(what, dup, "")
 
 (***************************************************************************)
 (* A -- the table of the code                                              *)
@@ -235,19 +276,44 @@ Layout(ms, i, off, maxal) ==
              start == ((off + al - 1) \div al) * al
          IN Layout(ms, i + 1, start + BitsOf(ms[i]), IF al > maxal THEN al ELSE maxal)
 ModelWord(ms, bits) == IF Layout(ms, 1, 0, 8) <= bits THEN Ok ELSE No(380)
-ModelLen(where, what) == CASE what = "const" -> Ok [] what \in {"var", "param"} -> No(433) [] what = "consti32" -> No(500)
-ModelDup(what, dup) == IF ~dup THEN Ok
-                       ELSE CASE what = "fn" -> No(421) [] what = "const" -> No(423) [] what = "param" -> No(424)
-                              [] what \in {"struct", "structword"} -> No(425) [] what = "member" -> No(426)
+ModelLen(where, what) == CASE what \in {"const", "constexpr", "constchain"} -> Ok [] what \in {"var", "param"} -> No(433)
+                           [] what = "consti32" -> No(500)
+\* declare_variable looks through every scope, layer 0 (the constants) included: a member or parameter named like a
+\* constant is a duplicate for the code; functions and structures live in lists of their own
+ModelDupV(what, dup, v) ==
+    IF ~dup THEN Ok
+    ELSE IF what = "ns" THEN (CASE v \in {"member+const", "const+member"} -> No(426)
+                                [] v \in {"param+const"} -> No(424)
+                                [] OTHER -> Ok)
+    ELSE IF v \in {"import:private+local", "import:unimported+local"} THEN Ok
+    ELSE CASE what = "fn" -> No(421) [] what = "const" -> No(423) [] what = "param" -> No(424)
+           [] what \in {"struct", "structword"} -> No(425) [] what = "member" -> No(426)
+ModelDup(what, dup) == ModelDupV(what, dup, "")
+ModelPair(f, t, p) ==
+    LET m1 == ModelType(f.ty, f.pos)
+        m2 == ModelType(t, p)
+    IN IF m1.ok /\ m2.ok THEN Ok
+       ELSE IF ~WF(f.ty, 1) \/ ~WF(t, 1) THEN No(350)      \* the parser reports first
+       ELSE IF ~m1.ok THEN m1 ELSE m2
 
 (***************************************************************************)
 (* Gen                                                                     *)
 (***************************************************************************)
-WordMembers == {"i8", "i16", "i32", "bool", "W", "u64"}
+WordMembers == {"i8", "i16", "i32", "bool", "W", "u64", "u128"}
+\* the NUMBER of members is a dimension too: words of 4 / 8 / 9 / 16 / 17 one-byte members (exactly filled, one over)
+ManyBytes == {4, 8, 9, 16, 17}
+\* flags x kinds (lesson 9): `pub` and `extern` are allowed on every top-level declaration; "Structures and constants can
+\* also be declared extern, but as of v0.3.0 this has no effect", `pub` is about imports only -- the legality of a type in a
+\* position does not depend on them (an `extern fn` is the positions xparam / xret).  Enumerated for nesting depth <= 2.
+FlagsOf(p) == IF p \in {"param", "ret", "xparam", "xret"} THEN {"pub"} ELSE {"pub", "extern", "pubextern"}
+\* second cells of the pair family: nesting depth <= 1 over the main leaves
+PairDepth == 1
 WordBits == {8, 16, 32, 64, 128}
-LenWhere == {"var", "smember", "param"}
-LenWhat == {"const", "var", "param", "consti32"}
-DupWhat == {"fn", "const", "param", "struct", "structword", "member"}
+LenWhere == {"var", "smember", "param", "const", "sizeof", "nested"}
+LenWhat == {"const", "var", "param", "consti32", "constexpr", "constchain"}
+\* order independence: the constant is declared before or after the declaration that uses it as a length
+LenOrder == {"before", "after"}
+DupWhat == {"fn", "const", "param", "struct", "structword", "member", "ns"}
 \* WHERE the two names stand does not matter to the rule (docs/errors.md E421-E426: "two functions ...", "another
 \* parameter or constant in scope" -- constants are in scope throughout the module); it is a dimension of Gen:
 \*   fn      which of the two declarations has a body / is extern / is pub
@@ -256,15 +322,24 @@ DupWhat == {"fn", "const", "param", "struct", "structword", "member"}
 \*           pair is the first two or the last two parameters) or a constant declared before / after the function
 \*   struct  struct + struct, word + struct; structword = struct + word (the documented example)
 \*   member  of a struct / of a word / the first and the last of three
+\*   triple / last / first-last   three declarations of one name; the pair is the LAST two declarations of a longer file;
+\*           the first and the last declaration of a longer file
+\*   import:*  the first declaration stands in another file (see RuleDupV)
 DupVariants(w) ==
-    CASE w = "fn" -> {"head+head", "body+head", "head+body", "body+body", "extern+head", "pub+head"}
-      [] w = "const" -> {"adjacent", "apart", "pub"}
+    CASE w = "fn" -> {"head+head", "body+head", "head+body", "body+body", "extern+head", "pub+head",
+                      "triple", "last", "first-last", "extern+extern", "import:private+local", "import:pub+local",
+                      "import:unimported+local"}
+      [] w = "const" -> {"adjacent", "apart", "pub", "triple", "last", "first-last", "extern", "import:private+local",
+                         "import:pub+local", "import:unimported+local"}
+      [] w = "ns" -> NsDocumented \cup {"member+const", "const+member", "param+fn", "param+struct",
+                                        "member+fn", "member+struct", "member+param"}
       [] w = "param" -> {"param@head", "param@body", "param@extern", "param@pub", "param@head-first",
                          "const-before@head", "const-after@head", "const-before@body", "const-after@body",
                          "const-before@extern", "const-after@extern", "const-after@pub"}
-      [] w = "struct" -> {"struct+struct", "word+struct", "word+word"}
+      [] w = "struct" -> {"struct+struct", "word+struct", "word+word", "triple", "last", "pub+extern", "opaque+struct",
+                          "import:private+local", "import:pub+local", "import:unimported+local"}
       [] w = "structword" -> {"struct+word"}
-      [] w = "member" -> {"struct", "word", "first-last"}
+      [] w = "member" -> {"struct", "word", "first-last", "triple", "last-two-of-four"}
 
 Init == /\ fam = "none" /\ ty = <<>> /\ pos = "none" /\ aux = <<>> /\ phase = "family"
 
@@ -272,47 +347,82 @@ ChooseFamily == /\ phase = "family"
                 /\ \/ fam' = "type" /\ phase' = "grow" /\ UNCHANGED <<ty, pos, aux>>
                    \/ fam' = "word" /\ phase' = "word" /\ UNCHANGED <<ty, pos, aux>>
                    \/ /\ fam' = "len" /\ phase' = "end"
-                      /\ \E w \in LenWhere, x \in LenWhat :
-                            /\ ~(w = "smember" /\ x \in {"var", "param"}) /\ ~(w = "param" /\ x = "var")
-                            /\ pos' = w /\ aux' = <<x>>
+                      /\ \E w \in LenWhere, x \in LenWhat, o \in LenOrder :
+                            /\ ~(w \in {"smember", "const", "sizeof"} /\ x \in {"var", "param"}) /\ ~(w = "param" /\ x = "var")
+                            /\ (o = "after" => x \notin {"var", "param"})
+                            \* the cells that existed before the order became a dimension keep their one-element aux (keys)
+                            /\ pos' = w /\ aux' = (IF o = "before" THEN <<x>> ELSE <<x, o>>)
                       /\ UNCHANGED ty
+                   \/ fam' = "pair" /\ phase' = "grow" /\ UNCHANGED <<ty, pos, aux>>
                    \/ /\ fam' = "dup" /\ phase' = "end"
                       /\ \E w \in DupWhat, d \in BOOLEAN : \E v \in DupVariants(w) : pos' = w /\ aux' = <<d, v>>
                       /\ UNCHANGED ty
-AddCtor == /\ phase = "grow" /\ Len(ty) < MaxDepth
+AddCtor == /\ phase = "grow" /\ Len(ty) < (IF fam = "pair" THEN PairDepth ELSE MaxDepth)
            /\ \E c \in Ctors : ty' = Append(ty, c)
            /\ UNCHANGED <<fam, pos, aux, phase>>
 PickLeaf == /\ phase = "grow"
-            /\ \E l \in MainLeaves \cup (IF Len(ty) <= ExtraDepth THEN ExtraLeaves ELSE {}) : ty' = Append(ty, l)
+            /\ \E l \in MainLeaves \cup (IF Len(ty) <= ExtraDepth /\ fam = "type" THEN ExtraLeaves ELSE {}) : ty' = Append(ty, l)
             /\ phase' = "pos"
             /\ UNCHANGED <<fam, pos, aux>>
 PickPos == /\ phase = "pos"
-           /\ \E p \in Positions : pos' = p
+           /\ \E p \in Positions :
+                 /\ pos' = p
+                 /\ \/ fam = "type" /\ UNCHANGED aux
+                    \/ fam = "type" /\ Len(ty) <= 3 /\ \E fl \in FlagsOf(p) : aux' = <<fl>>
+                    \/ fam = "pair" /\ \E x \in 1..Len(FirstCells) : aux' = <<x>>
            /\ phase' = "end"
-           /\ UNCHANGED <<fam, ty, aux>>
+           /\ UNCHANGED <<fam, ty>>
 AddMember == /\ phase = "word" /\ Len(ty) < 3
              /\ \E m \in WordMembers : ty' = Append(ty, m)
              /\ UNCHANGED <<fam, pos, aux, phase>>
+AddBytes == /\ phase = "word" /\ ty = <<>>
+            /\ \E k \in ManyBytes : ty' = [x \in 1..k |-> "i8"]
+            /\ UNCHANGED <<fam, pos, aux, phase>>
 PickBits == /\ phase = "word" /\ Len(ty) >= 1
             /\ \E b \in WordBits : aux' = <<b>>
             /\ phase' = "end"
             /\ UNCHANGED <<fam, ty, pos>>
 
-Next == ChooseFamily \/ AddCtor \/ PickLeaf \/ PickPos \/ AddMember \/ PickBits
+Next == ChooseFamily \/ AddCtor \/ PickLeaf \/ PickPos \/ AddMember \/ AddBytes \/ PickBits
 Spec == Init /\ [][Next]_vars
 
-RuleCell == CASE fam = "type" -> RuleType(ty, pos)
+PairRule == RulePair(FirstCells[aux[1]], ty, pos)
+\* flags: `pub` never matters.  `extern` on a constant / structure / word: docs/features.md says "as of v0.3.0 this has no
+\* effect", docs/errors.md E358 speaks of FUNCTIONS marked extern only -- but the code applies the ABI restriction to the
+\* type of an extern constant and to the members of an extern structure (`extern struct Q { m: bool, }` -> E358).  The two
+\* documents do not settle it: such cells are constrained only where both readings agree (a single ABI integer is
+\* accepted; what is illegal without the flag stays illegal, E358 being one more admissible code).
+RuleFlagged(t, p, fl) ==
+    LET r == RuleType(t, p)
+    IN IF fl \in {"extern", "pubextern"} /\ p \in {"const", "smember", "wmember"}
+       THEN (IF r.v = "R" THEN Rej(r.codes \cup {358} \cup (IF p = "const" THEN 500..599 ELSE {}))   \* or its initialiser
+             ELSE IF r.v = "A" /\ Len(t) = 1 /\ t[1] \in AbiInts THEN Acc
+             ELSE Unc)
+       ELSE r
+RuleCell == CASE fam = "type" -> (IF aux = <<>> THEN RuleType(ty, pos) ELSE RuleFlagged(ty, pos, aux[1]))
               [] fam = "word" -> RuleWord(ty, aux[1])
               [] fam = "len" -> RuleLen(pos, aux[1])
-              [] fam = "dup" -> RuleDup(pos, aux[1])
-ModelCell == CASE fam = "type" -> ModelType(ty, pos)
+              [] fam = "dup" -> RuleDupV(pos, aux[1], aux[2])
+              [] fam = "pair" -> [v |-> PairRule.v, codes |-> PairRule.codes]
+\* fix_type_for_flags with `extern` on a constant / structure: the type is externalized like a parameter's
+ModelFlagged(t, p, fl) ==
+    IF fl \in {"extern", "pubextern"} /\ p \in {"const", "smember", "wmember"} /\ WF(t, 1)
+    THEN LET x == FixExtern(t)
+         IN IF x = <<>> THEN No(358)
+            \* `extern const X: []i32` becomes a view of [..]i32, which can_be_constant admits; no initialiser has that type
+            ELSE IF p = "const" THEN (IF ~CanConst(x) THEN No(353) ELSE IF t[1] = "like" THEN No(500) ELSE Ok)
+            ELSE IF p = "smember" THEN (IF CanSMember(x) THEN Ok ELSE No(356))
+            ELSE IF CanWMember(x) THEN Ok ELSE No(356)
+    ELSE ModelType(t, p)
+ModelCell == CASE fam = "type" -> (IF aux = <<>> THEN ModelType(ty, pos) ELSE ModelFlagged(ty, pos, aux[1]))
                [] fam = "word" -> ModelWord(ty, aux[1])
                [] fam = "len" -> ModelLen(pos, aux[1])
-               [] fam = "dup" -> ModelDup(pos, aux[1])
+               [] fam = "dup" -> ModelDupV(pos, aux[1], aux[2])
+               [] fam = "pair" -> ModelPair(FirstCells[aux[1]], ty, pos)
 
 \* shapes of known findings (so that they can be keyed by input shape):
 \*   like-element   an array view []T used as the element of [3]T, [N]T or []T (documented invalid, E350)
-CellTags == IF fam = "type" /\ \E i \in 1..(Len(ty) - 1) : ty[i] \in {"arr", "narr", "like"} /\ ty[i + 1] = "like"
+CellTags == IF fam \in {"type", "pair"} /\ \E i \in 1..(Len(ty) - 1) : ty[i] \in {"arr", "narr", "like"} /\ ty[i + 1] = "like"
             THEN {"like-element"} ELSE {}
 \* the table of the code obeys the documented rule wherever the rule says anything
 Obeys(r, m) == /\ r.v = "A" => m.ok
